@@ -109,7 +109,11 @@ def run_generated(prop, seed, run_idx, tier, known=None):
         if rng.random() < profile['p_illegal']:
             c = g.illegal_call()
             if c is not None:
-                emit(c)
+                rec = emit(c)
+                while g.followups:
+                    f = g.followups.pop(0)
+                    if rec.get('out') != 'ok':      # the corrected request follows only a request that was refused
+                        emit(f)
                 continue
         if late and rng.random() < 0.3:
             emit({'c': 'uses', 'objs': [late.pop()]})
@@ -196,6 +200,7 @@ def run_generated(prop, seed, run_idx, tier, known=None):
     lo, hi = profile['post']
     for _ in range(rng.randint(lo, hi)):
         c = g.post_bake_call() if run.baked is not None else g.illegal_call()
+        g.followups.clear()
         if c is not None:
             if c.get('c') == 'bake' and run.bake_failed:
                 continue        # bake after a failed bake is a known finding; only its witness does that
